@@ -33,6 +33,17 @@
   `gen_gals`: `keep_cent` of `gen_cent` is passed to `gen_sats` as `keep_cent[pinds]`; for every
   tracer in `tracers`: `Ncent = len(centrals)`, every column `fast_concatenate(centrals, satellites)`.
 
+  NFW satellites (`gen_gals(..., nfw=True)` -> `gen_sats_nfw`, `compute_fast_NFW`): the selection rule of
+  this property does NOT apply to that path — the number of `T`-satellites of a halo is
+  `np.random.poisson(occupation × ic)` drawn from numba's global generator, independently per tracer (a halo
+  can host several satellites, of several tracers; the stored random numbers, the particle table, the
+  particle weights and ranks are not used), positions are host + random direction × NFW radius, velocities
+  `normal(v_host, vrms·0.577·f_sigv)`.  What does apply, and is modelled (`mkNfw`, `genSatsNfw`,
+  `genGalCatNfw`, with the drawn counts / positions / velocities as INPUTS): centrals are unchanged
+  (`gen_cent`), every NFW satellite carries its host's id and mass (`np.repeat` of the host columns by the
+  counts, host order), centrals precede satellites, `Ncent`; RSD as coded there:
+  `z = (z + vz * inv_velz2kms) % lbox`, i.e. into `[0, L)`, not the `[-L/2, L/2)` of `wrap` (and no light cone).
+
   The widths (mean occupation × ic × multiplicity | particle weight × rank decorator, including the
   assembly-bias shifts and, for satellites, the three conformity variants of the ELG width) are
   INPUTS: they involve erfc / log10 / pow and are computed by the harness with the package's own
@@ -209,13 +220,19 @@ def genSats (cfg : Cfg) (alphaS : Tri Rat) (pks : List (Part × Int)) : CentOut 
   { keep := keep
     gals := fun T => fill (fun pk => mkSat cfg (alphaS.get T) pk.1) T.code pks keep }
 
-/-- `keep_cent[subsample['pinds']]` (numpy fancy indexing: negative wraps once, else IndexError) -/
-def gatherKeep (keepCent : List Nat) (pinds : List Int) : Except Fault (List Int) :=
-  pinds.mapM (fun i => do
-    let k ← idx keepCent.length i
+/-- one element of `keep_cent[subsample['pinds']]` (numpy fancy indexing: a negative index wraps once,
+anything still outside raises IndexError) -/
+def gatherOne (keepCent : List Nat) (i : Int) : Except Fault Int :=
+  match pyIndex keepCent.length i with
+  | some k =>
     match keepCent[k]? with
-    | some c => pure (c : Int)
-    | none => throw Fault.oob)
+    | some c => .ok (c : Int)
+    | none => .error .oob
+  | none => .error .oob
+
+/-- `keep_cent[subsample['pinds']]` -/
+def gatherKeep (keepCent : List Nat) (pinds : List Int) : Except Fault (List Int) :=
+  pinds.mapM (gatherOne keepCent)
 
 structure TracerOut where
   ncent : Nat
@@ -239,13 +256,45 @@ def genGalCat (cfg : Cfg) (alphaC alphaS : Tri Rat) (hosts : List Host) (parts :
                            some { ncent := (c.gals T).length, gals := c.gals T ++ s.gals T }
                          else none }
 
+/-! ### NFW satellites (`nfw=True`): counts, positions and velocities are random draws, hence inputs -/
+
+/-- Python / numpy float `x % L` for `L ≠ 0`: the result has the sign of `L` -/
+def pyMod (x L : Rat) : Rat := x - L * ((x / L).floor : Rat)
+
+/-- one satellite as `compute_fast_NFW` returns it (before RSD) -/
+structure Draw where
+  pos : V3
+  vel : V3
+  deriving Repr
+
+/-- `gen_sats_nfw`: id and mass are `np.repeat`-ed from the host row; RSD is `(z + vz*inv) % lbox`
+whenever `rsd` (no light-cone branch there) -/
+def mkNfw (cfg : Cfg) (h : Host) (d : Draw) : Gal :=
+  { id := h.id, mass := h.mass, vel := d.vel,
+    pos := if cfg.rsd then ⟨d.pos.x, d.pos.y, pyMod (d.pos.z + d.vel.z * cfg.inv) cfg.lbox⟩ else d.pos }
+
+/-- the satellites of one tracer: host rows in order, each with its drawn satellites -/
+def genSatsNfw (cfg : Cfg) (rows : List (Host × List Draw)) : List Gal :=
+  rows.flatMap (fun hd => hd.2.map (mkNfw cfg hd.1))
+
+/-- `gen_gals(nfw=True)`: centrals from `gen_cent`, satellites from `gen_sats_nfw`.  `draws T` lists, host by
+host, the satellites drawn for tracer `T` (it is zipped with the host table). -/
+def genGalCatNfw (cfg : Cfg) (alphaC : Tri Rat) (hosts : List Host) (draws : Tracer → List (List Draw)) :
+    Tracer → Option TracerOut :=
+  let c := genCent cfg alphaC hosts
+  fun T => if cfg.en.get T then
+             some { ncent := (c.gals T).length, gals := c.gals T ++ genSatsNfw cfg (hosts.zip (draws T)) }
+           else none
+
 /-! ### line protocol
 
 ```
 cent <eL><eE><eQ> <rsd 0|1> <origin: - | x,y,z> <inv> <lbox> <aL>,<aE>,<aQ> <host>*
 sats <eL><eE><eQ> <rsd> <origin> <inv> <lbox> <aL>,<aE>,<aQ> <part>*            (kc = keep_cent[i])
 cat  <eL><eE><eQ> <rsd> <origin> <inv> <lbox> <acL>,<acE>,<acQ> <asL>,<asE>,<asQ> <H> <host>*H <part>*   (kc = pinds[i])
+nfw  <eL><eE><eQ> <rsd> <origin> <inv> <lbox> <acL>,<acE>,<acQ> <H> <host>*H <draw>*   (nfw=True)
 host = id,mass,px,py,pz,vx,vy,vz,dx,dy,dz,r,wL,wE,wQ,invn
+draw = <L|E|Q>,<host row>,px,py,pz,vx,vy,vz      (satellites in output order; grouped per host by the model)
 part = hid,hmass,px,py,pz,pvx,pvy,pvz,hvx,hvy,hvz,r,wL,wE0,wE1,wE2,wQ,invn,kc
 ```
 answers: `ok keep=<codes> L=<gals> E=<gals> Q=<gals>` (cent, sats),
@@ -325,7 +374,35 @@ def showTracerOut : Option TracerOut → String
 def showCatOut (o : CatOut) : String :=
   s!"ok keepc={showList o.keepCent} keeps={showList o.keepSat} L={showTracerOut (o.cat .LRG)} E={showTracerOut (o.cat .ELG)} Q={showTracerOut (o.cat .QSO)}"
 
+def parseDraw? (s : String) : Option (Tracer × Nat × Draw) :=
+  match s.splitOn "," with
+  | [t, i, px, py, pz, vx, vy, vz] => do
+    let t ← if t = "L" then some Tracer.LRG else if t = "E" then some Tracer.ELG else if t = "Q" then some Tracer.QSO else none
+    let i ← i.toNat?
+    let f ← [px, py, pz, vx, vy, vz].mapM parseRat?
+    match f with
+    | [px, py, pz, vx, vy, vz] => some (t, i, { pos := ⟨px, py, pz⟩, vel := ⟨vx, vy, vz⟩ })
+    | _ => none
+  | _ => none
+
+/-- the draws of tracer `T`, host by host (row index order), each host's draws in the order given -/
+def groupDraws (n : Nat) (ds : List (Tracer × Nat × Draw)) (T : Tracer) : List (List Draw) :=
+  (List.range n).map (fun i => (ds.filter (fun d => decide (d.1 = T) && d.2.1 == i)).map (·.2.2))
+
+def showNfwOut (o : Tracer → Option TracerOut) : String :=
+  s!"ok L={showTracerOut (o .LRG)} E={showTracerOut (o .ELG)} Q={showTracerOut (o .QSO)}"
+
 def handle : List String → String
+  | "nfw" :: en :: rsd :: origin :: inv :: lbox :: ac :: nh :: rows =>
+    match parseCfg? en rsd origin inv lbox, parseTri? ac, nh.toNat? with
+    | some cfg, some ac, some nh =>
+      if rows.length < nh then "bad-op" else
+      match (rows.take nh).mapM parseHost?, (rows.drop nh).mapM parseDraw? with
+      | some hosts, some ds =>
+        if ds.any (fun d => d.2.1 ≥ nh) then "err oob"
+        else showNfwOut (genGalCatNfw cfg ac hosts (groupDraws nh ds))
+      | _, _ => "bad-op"
+    | _, _, _ => "bad-op"
   | "cent" :: en :: rsd :: origin :: inv :: lbox :: al :: rows =>
     match parseCfg? en rsd origin inv lbox, parseTri? al, rows.mapM parseHost? with
     | some cfg, some al, some hosts => showCentOut (genCent cfg al hosts)
